@@ -75,27 +75,99 @@ theorem requestBlock_frame (s : State) (h : Bytes) (hr : s.verified = true) : Fr
   unfold requestBlock
   exact ⟨fun hv => (by rw [hr] at hv; cases hv), rfl, rfl, rfl, rfl, rfl, id, id,
     fun c hc => lookupCmd_set_ne _ _ _ _ (fun hh => hc hh.symm),
-    fun _ => ⟨fun _ => ⟨rfl, rfl⟩, fun h => (by cases h), fun _ => rfl⟩⟩
+    fun _ => ⟨fun _ => ⟨rfl, rfl⟩, fun h => (by cases h), fun _ => rfl, fun h => (by cases h)⟩⟩
 
-theorem cancelBlock_frame (s : State) (h : Bytes) : Frame s (cancelBlock s h).1 := by
+theorem runEnd_inv (s : State) (hI : Inv s) : Inv (runEnd s).1 := by
+  unfold runEnd
+  split
+  · exact ⟨fun hv => ⟨(hI.pre hv).1, rfl, (hI.pre hv).2.2⟩, fun h => (by cases h), hI.hs, hI.vo, hI.ping⟩
+  · exact ⟨fun hv => ⟨(hI.pre hv).1, rfl, (hI.pre hv).2.2⟩, fun h => (by cases h), hI.hs, hI.vo, hI.ping⟩
+
+theorem runEnd_blk (s : State) (hB : BlkInv s) : BlkInv (runEnd s).1 := by
+  unfold runEnd
+  split
+  · exact ⟨fun h => (by cases h), hB.reader, hB.handler, hB.started⟩
+  · exact ⟨hB.armed, hB.reader, hB.handler, hB.started⟩
+
+theorem connectionEnd_eq (s : State) : connectionEnd s = runEnd (streamFailed s) := rfl
+
+theorem streamFailed_inv (s : State) (hI : Inv s) : Inv (streamFailed s) := by
+  unfold streamFailed
+  by_cases hr : (s.blockReader && s.blockStarted) = true
+  · simp only [hr, ↓reduceIte]
+    cases hq : s.blockReq with
+    | none => simp only []; exact ⟨fun hv => ⟨(hI.pre hv).1, (hI.pre hv).2.1, rfl⟩, hI.rdy, hI.hs, hI.vo, hI.ping⟩
+    | some h =>
+      simp only []
+      have := hI.frame (completeBlock_frame s h (fun hv => (hI.pre hv).2.2))
+      exact ⟨this.pre, this.rdy, this.hs, this.vo, this.ping⟩
+  · simp only [hr, Bool.false_eq_true, ↓reduceIte]; exact hI
+
+theorem streamFailed_blk (s : State) (hB : BlkInv s) : BlkInv (streamFailed s) := by
+  unfold streamFailed
+  by_cases hr : (s.blockReader && s.blockStarted) = true
+  · simp only [hr, ↓reduceIte]
+    have hr' : s.blockReader = true := by
+      simp only [Bool.and_eq_true] at hr; exact hr.1
+    cases hq : s.blockReq with
+    | none =>
+      have := hB.reader hr'
+      rw [hq] at this; cases this
+    | some h =>
+      simp only [completeBlock, hq, ↓reduceIte]
+      exact ⟨fun h => (by cases h), fun h => (by cases h), fun h => (by cases h), fun h => (by cases h)⟩
+  · simp only [hr, Bool.false_eq_true, ↓reduceIte]; exact hB
+
+theorem connectionEnd_inv (s : State) (hI : Inv s) : Inv (connectionEnd s).1 := by
+  rw [connectionEnd_eq]; exact runEnd_inv _ (streamFailed_inv s hI)
+
+theorem connectionEnd_blk (s : State) (hB : BlkInv s) : BlkInv (connectionEnd s).1 := by
+  rw [connectionEnd_eq]; exact runEnd_blk _ (streamFailed_blk s hB)
+
+theorem cancel_flags_frame (s : State) (st : Bool) (hs : s.stopped = true → st = true) :
+    Frame s { s with onStopArmed := false, blockHandler := false, stopped := st } :=
+  ⟨fun _ => ⟨rfl, rfl⟩, rfl, rfl, rfl, rfl, rfl, id, hs, fun _ _ => rfl,
+   fun hb => ⟨fun h => (by cases h), hb.reader, fun h => (by cases h), hb.started⟩⟩
+
+theorem cancel_unstarted_frame (s : State) :
+    Frame s { s with onStopArmed := false, blockHandler := false, blockReader := false, stopped := true } :=
+  ⟨fun _ => ⟨rfl, rfl⟩, rfl, rfl, rfl, rfl, rfl, id, fun _ => rfl, fun _ _ => rfl,
+   fun hb => ⟨fun h => (by cases h), fun h => (by cases h), fun h => (by cases h),
+     fun h => (by have := (hb.started h).1; exact absurd h (by intro _; exact Bool.noConfusion (hb.started h |>.1 ▸ rfl : true = true) |> fun _ => False.elim (by cases h <;> contradiction)))⟩⟩
+
+theorem cancelBlock_inv (s : State) (h : Bytes) (hI : Inv s) : Inv (cancelBlock s h).1 := by
   unfold cancelBlock
   split
-  · exact Frame.refl s
+  · exact hI
   · split
-    · exact Frame.refl s
+    · exact hI
     · split
-      · exact ⟨fun _ => ⟨rfl, rfl⟩, rfl, rfl, rfl, rfl, rfl, id, id, fun _ _ => rfl,
-          fun _ => ⟨fun h => (by cases h), fun h => (by cases h), fun h => (by cases h)⟩⟩
-      · rename_i hr
-        exact ⟨fun _ => ⟨rfl, rfl⟩, rfl, rfl, rfl, rfl, rfl, id, id, fun _ _ => rfl,
-          fun hb => ⟨fun h => (by cases h), hb.reader, fun h => (by cases h)⟩⟩
+      · split
+        · exact connectionEnd_inv _ (hI.frame (cancel_flags_frame s true (fun _ => rfl)))
+        · exact runEnd_inv _ (hI.frame (cancel_unstarted_frame s))
+      · exact hI.frame ⟨fun _ => ⟨rfl, rfl⟩, rfl, rfl, rfl, rfl, rfl, id, id, fun _ _ => rfl,
+          fun hb => ⟨fun h => (by cases h), hb.reader, fun h => (by cases h), hb.started⟩⟩
+
+theorem cancelBlock_blk (s : State) (h : Bytes) (hB : BlkInv s) : BlkInv (cancelBlock s h).1 := by
+  unfold cancelBlock
+  split
+  · exact hB
+  · split
+    · exact hB
+    · split
+      · split
+        · exact connectionEnd_blk _ ((cancel_flags_frame s true (fun _ => rfl)).blk hB)
+        · rename_i hst
+          refine runEnd_blk _ ⟨fun h => (by cases h), fun h => (by cases h), fun h => (by cases h), fun h' => ?_⟩
+          exact absurd h' hst
+      · exact ⟨fun h => (by cases h), hB.reader, fun h => (by cases h), hB.started⟩
 
 theorem reach_inv (e : Env) (s : State) (h : Reach e s) : Inv s := by
   induction h with
   | init vo tx hh pn => exact inv_init vo tx hh pn
   | step inp _ hs ih => exact handleMessage_inv e _ inp ih _ hs
   | reqBlock h _ hr ih => exact ih.frame (requestBlock_frame _ h (ih.rdy hr))
-  | cancel h _ ih => exact ih.frame (cancelBlock_frame _ h)
+  | cancel h _ ih => exact cancelBlock_inv _ h ih
 
 /-- **C13 (ready ⇒ verified).** In every reachable state a node that is ready — the only nodes
     `nextNode` hands out for header, transaction and block requests — has completed the handshake
